@@ -23,6 +23,13 @@ generation 2 : general fonts (family avar: 2-3 fvar axes with real ranges and on
                and tag subsets, item variation stores with LONG_WORDS / region index lists / several sub-tables,
                index maps of every entry size, fvar record sizes and instance records).  Generated fonts are
                judged at the normalised tuple the SPECIFICATION computes; the tuple instance() reports must agree.
+generation 3 : CFF2 variable fonts (MC_Cff2Instance / Cff2Instance.tla): VariationStores with several ItemVariationData
+               of differing region counts, Font DICTs whose Private DICT selects any of them through its vsindex entry,
+               FDSelect format 0 / 3, charstrings that inherit it or override it with their own vsindex, blends in every
+               grouping, blends inside local and global subroutines.  TLC checks that the charstring machine (Type2.tla)
+               realises  default + SUM scalar * delta  point-wise with Variation.tla's exact scalars; the instanced
+               charstrings are run by the same machine without a VariationStore and compared (event CffGlyph), also for
+               the repository's CFF2 font.
 Every event, generated or recorded, is judged by Trace_Variation (exact rational arithmetic, tolerance
 one font unit, equality at the default coordinates).
 """
@@ -60,7 +67,15 @@ ASSUMPTIONS = [
     "only when no component is transformed",
     "an error returned by instance() on a repository font is not a violation (the property speaks about "
     "successful instances); a panic is, and so is an error on a generated font",
-    "CFF2: Static, HVAR advances / bearings and MVAR metrics are judged; the blended charstrings are C18's",
+    "CFF2 outlines: the source charstring at the tuple and the written charstring are both run by the charstring "
+    "machine of Type2.tla (C18's specification, instantiated unchanged); the ItemVariationData in effect is the "
+    "charstring's own vsindex, else the vsindex entry of the Private DICT of the glyph's Font DICT, else 0; same "
+    "commands, every coordinate within one font unit (+ 2^-16 per machine step where the machine had to floor a "
+    "product, Dev_FloorSlack), equal at the default coordinates (1/16 unit where a source operand is not exact in "
+    "single precision, Dev_F32AtDefault); a charstring the machine does not accept (not well formed, numbers beyond "
+    "16384 units, regions without meaning) is not judged (counted). The written CFF2 table has no VariationStore and "
+    "no vsindex / blend in a Private DICT. Blended hint operands and blended Private DICT values (BlueValues ...) are "
+    "not judged beyond the number of stem hints. CFF2 metrics: HVAR advances / bearings and MVAR",
     "vertical metrics (vmtx / VVAR, phantom points 3 and 4), cvar values, name / STAT naming, OS/2 weight and "
     "width classes are not judged",
     "the harness' font writers (fvar, gvar container, item variation store, index maps, MVAR) and its container "
@@ -83,6 +98,8 @@ def _source(m):
 
 
 def _key(m):
+    if m["ev"] == "CffGlyph":
+        return "CffGlyph|%s|%s" % (m["clause"], m["kind"])
     if m["ev"] == "Failed":
         return "Failed|%s|%s" % (m["clause"], _errclass(str(m["got"])))
     if m["ev"] == "Metric":
@@ -166,24 +183,87 @@ def _plant(events):
     e = first(lambda e: genm(e) and not e["a"]["present"] and any(e["a"]["coords"]))
     if e:
         add("metric-absent", e, lambda b: setk(b["o"], "value", b["a"]["base"] + 1))
+    # CFF2 (generation 3): the written charstring is replaced by one synthesised from commands TLC computed for
+    # ANOTHER tuple / with a change, never by anything allsorts wrote
+    def cffgen(e):
+        return e["ev"] == "CffGlyph" and e["a"]["generated"] and e["a"]["exp"]
+
+    def static_o(cmds):
+        return {"code": _charstring_of(cmds), "nG": 0, "nL": 0, "gsubrs": [], "lsubrs": []}
+
+    def far(c1, c2):
+        return len(c1) == len(c2) and any(abs(x - y) > 3 * 65536 for a, b in zip(c1, c2) for x, y in zip(a["p"], b["p"]))
+
+    byglyph = {}
+    for e in events:
+        if cffgen(e):
+            byglyph.setdefault((e["case"].split("/")[0], e["a"]["gid"]), []).append(e)
+    pair = None
+    for es in byglyph.values():
+        e1 = next((x for x in es if any(x["a"]["coords"]) and x["a"]["kind"] == "inh"), None)
+        e2 = next((x for x in es if e1 and far(x["a"]["exp"], e1["a"]["exp"])), None)
+        if e1 and e2:
+            pair = (e1, e2)
+            break
+    if pair:
+        add("cff-point", pair[0], lambda b: setk(b, "o", static_o(pair[1]["a"]["exp"])))
+        add("cff-shape", pair[0], lambda b: setk(b, "o", static_o(b["a"]["exp"][:-2] + b["a"]["exp"][-1:])))
+        add("cff-static", pair[0], lambda b: b["o"].update(code=b["a"]["code"], nG=b["a"]["nG"], nL=b["a"]["nL"],
+                                                            gsubrs=b["a"]["gsubrs"], lsubrs=b["a"]["lsubrs"]))
+        add("cff-transport", pair[0], lambda b: (setk(b, "o", static_o(b["a"]["exp"])), setk(b["a"], "exp", pair[1]["a"]["exp"])))
+    e = first(lambda e: cffgen(e) and not any(e["a"]["coords"]) and e["a"]["kind"] in ("inh", "exp"))
+    if e:
+        def shift(b):
+            cm = json.loads(json.dumps(b["a"]["exp"]))
+            cm[0]["p"][0] += 1
+            b["o"] = static_o(cm)
+        add("cff-default-point", e, shift)
+    e = first(lambda e: cffgen(e) and e["a"].get("stems"))
+    if e:
+        add("cff-hints", e, lambda b: setk(b, "o", static_o(b["a"]["exp"])))
     # Static: built from scratch
     e = {"i": 0, "case": "", "ev": "Static", "a": {"user": [0]},
          "o": {"tags": ["glyf", "head"], "isVariable": False, "loads": True, "glyphs": 4, "srcGlyphs": 4,
-               "head": [-5, -5, 9, 9], "ubox": [-5, -5, 9, 9]}}
+               "head": [-5, -5, 9, 9], "ubox": [-5, -5, 9, 9], "cffVstore": False, "cffPrivVar": False}}
     add("tables", e, lambda b: b["o"]["tags"].append("gvar"))
     add("is-variable", e, lambda b: setk(b["o"], "isVariable", True))
     add("loads", e, lambda b: setk(b["o"], "loads", False))
     add("head-bbox", e, lambda b: setk(b["o"], "head", [-5, -5, 8, 9]))
+    add("cff-vstore", e, lambda b: setk(b["o"], "cffVstore", True))
+    add("cff-private-variable", e, lambda b: setk(b["o"], "cffPrivVar", True))
     add("panic", e, lambda b: b.update(ev="Failed", a={"user": b["a"]["user"], "stage": "instance", "generated": False},
                                        o={"err": "Panic:selftest @ src/x.rs:1"}))
     return planted
 
 
-PLANT_EXPECTED = {"point", "shape", "transport", "normalized", "point-composite", "default-point", "default-adv",
+def _num1616(v):
+    v &= 0xFFFFFFFF
+    return [255, (v >> 24) & 255, (v >> 16) & 255, (v >> 8) & 255, v & 255]
+
+
+def _charstring_of(cmds):
+    """A static CFF2 charstring (rmoveto / rlineto / rrcurveto, 16.16 operands) that draws the commands."""
+    out, x, y = [], 0, 0
+    for c in cmds:
+        p = c["p"]
+        if c["c"] == "Z":
+            continue
+        rel = []
+        for k in range(0, len(p), 2):
+            rel += [p[k] - x, p[k + 1] - y]
+            x, y = p[k], p[k + 1]
+        for v in rel:
+            out += _num1616(v)
+        out.append({"M": 21, "L": 5, "C": 8}[c["c"]])
+    return out
+
+
+PLANT_EXPECTED = {"cff-point", "cff-shape", "cff-static", "cff-transport", "cff-default-point", "cff-hints", "cff-vstore",
+                  "cff-private-variable", "point", "shape", "transport", "normalized", "point-composite", "default-point", "default-adv",
                   "default-lsb", "adv-phantom", "lsb-outline", "adv-hvar", "lsb-map", "metric", "default-metric",
                   "tables", "is-variable", "loads", "panic", "bbox", "lsb-xmin", "metric-absent", "head-bbox"}
 # clause printed by the judge for each planted corruption
-PLANT_CLAUSE = {"point-composite": "point"}
+PLANT_CLAUSE = {"point-composite": "point", "cff-transport": "transport"}
 
 # vacuity of the generation-2 families: counters computed by TLC for every CASE (field "vac"), summed here
 VAC_REQUIRED = [
@@ -194,11 +274,17 @@ VAC_REQUIRED = [
     "lay_mvar_rec8", "lay_mvar_rec10", "lay_mvar_rec12", "lay_mvar_big_several_records", "lay_mvar_absent_tags",
     "lay_mvar_first_tag_absent", "lay_mvar_two_subs", "lay_hvar_long_words", "lay_hvar_ri_not_prefix",
     "lay_hvar_several_subs", "lay_map_entry1", "lay_map_entry2", "lay_map_entry3", "lay_map_entry4", "lay_map_format1",
-    "lay_map_outer_nonzero", "lay_fvar_axis_size_gt20", "lay_fvar_instances", "lay_fvar_offset_gt16"]
+    "lay_map_outer_nonzero", "lay_fvar_axis_size_gt20", "lay_fvar_instances", "lay_fvar_offset_gt16",
+    # generation 3 (CFF2), counted by MC_Cff2Instance
+    "cff_fonts", "cff_inherit_nonzero_glyphs", "cff_inherit_zero_entry_glyphs", "cff_inherit_no_entry_glyphs",
+    "cff_explicit_overrides_private", "cff_wrong_ivd_other_k", "cff_wrong_ivd_same_k_tuples", "cff_k0_blend_glyphs",
+    "cff_k_ge3_glyphs", "cff_differing_k_fonts", "cff_fdselect0", "cff_fdselect3", "cff_lsubr_glyphs", "cff_gsubr_glyphs",
+    "cff_gsubr_shared_by_ivds", "cff_fuzzy_results", "cff_moved_results", "cff_one_axis", "cff_hint_glyphs",
+    "cff_fraction_glyphs"]
 
 
 def _judge(ctx, trace, tag, parts):
-    other = {"STAT": [], "OUTSIDE": [], "ERR": [], "UNMODELLED": []}
+    other = {"STAT": [], "OUTSIDE": [], "ERR": [], "UNMODELLED": [], "CFFSTAT": []}
     total, mism = vlib.judge_trace_parallel(ctx, "Trace_Variation", "Trace_Variation.cfg", trace, tag, parts=parts,
                                             other_tags=other)
     return total, mism, other
@@ -226,7 +312,7 @@ def run(ctx):
                     c = json.loads(payload)
                     c["user"], c["norm"], c["expect"] = c["user"][:2], c["norm"][:2], c["expect"][:2]
                     sample_cases.append(c)
-                if '"gen":2' in payload:
+                if '"gen":2' in payload or '"gen":3' in payload:
                     c = json.loads(payload)
                     for k, v in c["vac"].items():
                         vac[k] = vac.get(k, 0) + v
@@ -234,21 +320,35 @@ def run(ctx):
                     gen2[key] = gen2.get(key, 0) + 1
             elif tag == "LEMMA":
                 lemma[payload] = lemma.get(payload, 0) + 1
-        mc = vlib.run_tlc(ctx, "MC_Variation", cfg, "mc", workers=4, timeout=600 if ctx.quick else 2400, sink=sink)
+        # generation 3 (CFF2 variable fonts) has its own module; the two explorations run side by side
+        import concurrent.futures
+        import threading
+        lock = threading.Lock()
+
+        def locked(tag, payload):
+            with lock:
+                sink(tag, payload)
+        with concurrent.futures.ThreadPoolExecutor(max_workers=2) as ex:
+            f3 = ex.submit(vlib.run_tlc, ctx, "MC_Cff2Instance", "MC_Cff2Instance_%s.cfg" % ("quick" if ctx.quick else "thorough"),
+                           "mc3", workers=3, timeout=600 if ctx.quick else 2400, sink=locked)
+            f1 = ex.submit(vlib.run_tlc, ctx, "MC_Variation", cfg, "mc", workers=4, timeout=600 if ctx.quick else 2400, sink=locked)
+            mc, mc3 = f1.result(), f3.result()
+    ctx.note("MC_Cff2Instance: %d states generated, %d distinct, %d CFF2 fonts (%.1fs)" %
+             (mc3.generated, mc3.distinct, fams.get("cff2", 0), mc3.wall))
     ctx.note("MC_Variation: %d states generated, %d distinct; lemma states %s; %d font cases %s (%.1fs)" %
              (mc.generated, mc.distinct, json.dumps(lemma, sort_keys=True), n_cases[0], json.dumps(fams, sort_keys=True),
               mc.wall))
     for k in ("lemma-scalar", "lemma-iup", "lemma-codec-d", "lemma-codec-p", "lemma-codec-big"):
         if not lemma.get(k):
             raise vlib.ToolError("MC_Variation checked no state of %s" % k)
-    for k in ("iup", "region1", "region2", "enc", "metric", "big", "avar", "nest", "lay"):
+    for k in ("iup", "region1", "region2", "enc", "metric", "big", "avar", "nest", "lay", "cff2"):
         if not fams.get(k):
             raise vlib.ToolError("MC_Variation generated no case of family %s" % k)
     # generation 2: what the families exercise, counted by TLC itself for every CASE
-    ctx.note("generation-2 fonts %s; counters %s" % (json.dumps(gen2, sort_keys=True), json.dumps(vac, sort_keys=True)))
+    ctx.note("generation-2 / 3 fonts %s; counters %s" % (json.dumps(gen2, sort_keys=True), json.dumps(vac, sort_keys=True)))
     for k in VAC_REQUIRED:
         if not vac.get(k):
-            raise vlib.ToolError("MC_Variation: the generation-2 families are vacuous for '%s'" % k)
+            raise vlib.ToolError("MC_Variation / MC_Cff2Instance: the generation-2 / 3 families are vacuous for '%s'" % k)
 
     # spec -> impl
     gen_trace = ctx.path("gen_trace.ndjson")
@@ -276,7 +376,7 @@ def run(ctx):
     if missing:
         problems.append("binding self-check could not be planted: %s" % sorted(missing))
     trace = ctx.path("trace.ndjson")
-    vlib.write_ndjson(trace, events + [p[1] for p in planted])
+    vlib.write_ndjson(trace, _spread(events) + [p[1] for p in planted])
     user_of = {e["case"]: e["a"]["user"] for e in events if e["ev"] in ("Static", "Failed")}
 
     total, mism, other = _judge(ctx, trace, "judge", 6 if ctx.quick else 8)
@@ -350,11 +450,35 @@ def run(ctx):
         for k in by:
             by[k][s[k]] = by[k].get(s[k], 0) + 1
     cnt["lsb_unjudged"] = lsb_unjudged
+    # CFF2 outlines: the judge's own classification of every CffGlyph event it judged
+    cff = {"cff_glyph_events": 0, "with_blend": 0, "inherited_private_vsindex_nonzero": 0, "inherited_private_vsindex_zero": 0,
+           "explicit_vsindex": 0, "at_default": 0, "floored_products": 0, "with_subroutines": 0, "with_hints": 0,
+           "repository_font_with_blend": 0, "several_font_dicts": 0, "font_dict_not_first": 0}
+    cff_k = {}
+    n_gen_cff = sum(1 for e in events if e["ev"] == "CffGlyph" and e["a"]["generated"])
+    for s in other["CFFSTAT"]:
+        cff["cff_glyph_events"] += 1
+        cff["with_blend"] += s["blend"]
+        cff["inherited_private_vsindex_nonzero"] += s["inherited"] and s["ivd"] > 0
+        cff["inherited_private_vsindex_zero"] += s["inherited"] and s["ivd"] == 0
+        cff["explicit_vsindex"] += s["explicit"]
+        cff["at_default"] += s["still"]
+        cff["floored_products"] += s["fuzzy"]
+        cff["with_subroutines"] += s["depth"] > 0
+        cff["with_hints"] += s["stems"] > 0
+        cff["several_font_dicts"] += s["nfd"] > 1
+        cff["font_dict_not_first"] += s["fd"] > 0
+        if s["blend"]:
+            cff_k[str(s["k"])] = cff_k.get(str(s["k"]), 0) + 1
+    cff["repository_font_with_blend"] = sum(1 for e in rec_events if e["ev"] == "CffGlyph" and 16 in e["a"]["code"])
     need = [("at_default", cnt["at_default"]), ("two_or_more_active", cnt["two_or_more_active"]),
             ("with_inferred_points", cnt["with_inferred_points"]), ("rounded_numbers", cnt["rounded_numbers"])]
     need += [("kind " + k, by["kind"].get(k, 0)) for k in ("simple", "composite", "empty", "cff")]
     need += [("hvar " + k, by["hvar"].get(k, 0)) for k in ("none", "direct", "map")]
     need += [("lsb rule " + k, by["lsbrule"].get(k, 0)) for k in ("map", "outline", "cff")]
+    # computed from what went into allsorts (cases from TLC, the repository font's own bytes), not from its output
+    need += [("generated CffGlyph events", n_gen_cff),
+             ("repository CFF2 glyphs with blend", cff["repository_font_with_blend"])]
     need += [("header boxes judged", cnt["header_box_judged_composite"]),
              ("lsb = xMin judged", cnt["lsb_equals_xmin_judged_composite"])]
     absent = sum(1 for e in events if e["ev"] == "Metric" and not e["a"]["present"])
@@ -373,7 +497,8 @@ def run(ctx):
         else:
             raise vlib.ToolError("; ".join(problems))
     coverage = {
-        "states": mc.distinct,
+        "states": mc.distinct + mc3.distinct,
+        "states_cff2_generator": mc3.distinct,
         "transitions": rep.get("instances", 0) + rec.get("instances", 0),
         "traces_validated_against_impl": len(events),
         "samples": sample_cases + [_shorten(e) for e in rec_events if e["ev"] == "Glyph" and e["a"]["kind"] == "simple"][:1],
@@ -388,6 +513,7 @@ def run(ctx):
         "repository_variable_fonts": rec.get("font_names", []),
         "events_judged": total - len(planted),
         "judged": cnt,
+        "cff2_outlines_judged": cff, "cff2_blends_by_region_count": cff_k,
         "judged_by_kind": by["kind"], "judged_by_hvar": by["hvar"], "judged_by_lsb_rule": by["lsbrule"],
         "outside_spec": len(other["OUTSIDE"]),
         "errors_returned_by_instance": len(other["ERR"]),
@@ -395,13 +521,37 @@ def run(ctx):
         "tolerance_font_units": 1,
         "mismatch_lines": len(real),
         "binding_selfcheck": "corrupted events rejected: %s" % sorted(planted_seen),
-        "tlc_states_generated": mc.generated,
+        "tlc_states_generated": mc.generated + mc3.generated,
         "exhaustive": True,
         "explanation": "exhaustive over the lemma universes and the abstract fonts of %s (every CASE executed on "
                        "allsorts at every coordinate tuple the model chose); repository fonts at fixed and seeded "
                        "random coordinates are samples" % cfg,
     }
     vlib.finish(ctx, LEVEL, coverage, violations, ASSUMPTIONS)
+
+
+def _spread(events):
+    """The judge works on contiguous parts of the trace in parallel; a CffGlyph event costs several times a Glyph event,
+    and the CFF2 instances come last. Spread their groups (one group = one call of instance()) evenly over the trace."""
+    groups, cur = [], None
+    for e in events:
+        if cur is None or e["case"] != cur[0]:
+            cur = (e["case"], [])
+            groups.append(cur)
+        cur[1].append(e)
+    heavy = [g for g in groups if any(e["ev"] == "CffGlyph" for e in g[1])]
+    light = [g for g in groups if not any(e["ev"] == "CffGlyph" for e in g[1])]
+    if not heavy or not light:
+        return events
+    out, step, h = [], len(light) / float(len(heavy)), 0
+    for k, g in enumerate(light):
+        while h < len(heavy) and h * step <= k:
+            out += heavy[h][1]
+            h += 1
+        out += g[1]
+    for g in heavy[h:]:
+        out += g[1]
+    return out
 
 
 def _shorten(e):
